@@ -64,7 +64,11 @@ func cmdC06(r *RNG, n int, e *Emitter, args []string) {
 		}
 		if i%4 == 2 {
 			if i%8 == 2 {
-				genC06Around(r, e, i)
+				if i%16 == 10 {
+					genC06Grazer(r, e, i)
+				} else {
+					genC06Around(r, e, i)
+				}
 			} else if i%16 == 6 {
 				genC06Comb(r, e, i)
 			} else {
@@ -230,6 +234,90 @@ func genC06Around(r *RNG, e *Emitter, i int) {
 	}
 	e.Count("family=around")
 	emitC06(e, fmt.Sprint(i), in, l, t, l+w, t+h, GenInfo{})
+}
+
+// grazer family: long shallow edges that pass just outside a rectangle corner and run far beyond it on both sides,
+// so that an edge joins a side region to the diagonally opposite corner zone (or to the opposite side) round the FAR
+// side of the rectangle; the other vertices are interior points, points of the side regions and further grazers
+func genC06Grazer(r *RNG, e *Emitter, i int) {
+	w, h := r.Range(20, 120), r.Range(20, 120)
+	l, t := r.Range(-30, 30), r.Range(-30, 30)
+	rr, b := l+w, t+h
+	crosses := func(a, c clip.Point64) bool { // does segment ac meet the closed rectangle? (sampled exactly enough: 400 steps)
+		for k := 0; k <= 400; k++ {
+			x := float64(a.X) + (float64(c.X)-float64(a.X))*float64(k)/400
+			y := float64(a.Y) + (float64(c.Y)-float64(a.Y))*float64(k)/400
+			if x >= float64(l) && x <= float64(rr) && y >= float64(t) && y <= float64(b) {
+				return true
+			}
+		}
+		return false
+	}
+	grazer := func() (clip.Point64, clip.Point64) {
+		for {
+			ox, oy := int64(1), int64(1)
+			kx, ky := rr, b
+			if r.Bool() {
+				ox, kx = -1, l
+			}
+			if r.Bool() {
+				oy, ky = -1, t
+			}
+			m := r.Range(1, 6)
+			mx, my := kx+ox*m, ky+oy*m
+			da, db := r.Range(1, 12), r.Range(1, 12)
+			if r.Bool() {
+				da *= r.Range(2, 10) // shallow
+			} else {
+				db *= r.Range(2, 10) // steep
+			}
+			dx, dy := ox*da, -oy*db
+			s1, s2 := r.Range(1, 25), r.Range(1, 25)
+			a := clip.Point64{X: mx - s1*dx, Y: my - s1*dy}
+			c := clip.Point64{X: mx + s2*dx, Y: my + s2*dy}
+			if !crosses(a, c) {
+				if r.Bool() {
+					a, c = c, a
+				}
+				return a, c
+			}
+		}
+	}
+	inside := func() clip.Point64 { return clip.Point64{X: r.Range(l+1, rr-1), Y: r.Range(t+1, b-1)} }
+	side := func() clip.Point64 { // a point of one of the four side regions
+		switch r.Intn(4) {
+		case 0:
+			return clip.Point64{X: r.Range(l, rr), Y: b + r.Range(1, 60)}
+		case 1:
+			return clip.Point64{X: r.Range(l, rr), Y: t - r.Range(1, 60)}
+		case 2:
+			return clip.Point64{X: l - r.Range(1, 60), Y: r.Range(t, b)}
+		}
+		return clip.Point64{X: rr + r.Range(1, 60), Y: r.Range(t, b)}
+	}
+	var p clip.Path64
+	switch r.Intn(4) {
+	case 0:
+		a, c := grazer()
+		p = clip.Path64{inside(), side(), a, c}
+	case 1:
+		a, c := grazer()
+		p = clip.Path64{inside(), a, c}
+	case 2:
+		a, c := grazer()
+		a2, c2 := grazer()
+		p = clip.Path64{a, c, a2, c2}
+	default:
+		a, c := grazer()
+		p = clip.Path64{side(), a, c, side(), inside()}
+	}
+	k := r.Intn(len(p))
+	p = append(append(clip.Path64{}, p[k:]...), p[:k]...)
+	if r.Bool() {
+		p = clip.ReversePath(p)
+	}
+	e.Count("family=grazer")
+	emitC06(e, fmt.Sprint(i), clip.Paths64{p}, l, t, rr, b, GenInfo{})
 }
 
 // comb family: a simple zigzag polygon that enters and leaves the rectangle several times through ONE side with
